@@ -290,7 +290,7 @@ func (run *lnRun) execute() {
 		"frame0": sc.Frame0, "mix": sc.Mix, "mix2": sc.Mix2, "mixafter": sc.MixAfter, "gap": sc.Gap != nil && sc.Gap.Len > 0,
 		"truth": run.truth, "whole": run.whole, "intact": run.intact, "beforegap": run.before, "reads": sc.Reads, "fsize": card.fsize})
 	var mixMu sync.Mutex
-	mixAtBlock := -1
+	mixAtBlock, mixDoneBlock := -1, -1
 	nblocks := 0
 	if sc.MixAfter > 0 && len(sc.Mix2) > 0 {
 		fired := false
@@ -308,8 +308,10 @@ func (run *lnRun) execute() {
 					mixMu.Unlock()
 					ls.ConfigureMixFraction(mfo)
 					mixMu.Lock()
-					// every block received before the request was made used the old mix; blocks after it returned use the new one
+					// every block received before the request was made used the old mix; blocks made after it was answered use
+					// the new one (at most one block made before the answer can still be on its way when the call returns)
 					mixAtBlock = before
+					mixDoneBlock = nblocks
 					mixMu.Unlock()
 				}()
 			}
@@ -318,6 +320,7 @@ func (run *lnRun) execute() {
 	panicked := make(chan any, 4)
 	// the reader goroutine is launched by the code itself; a panic there would kill the process, so the loop body is
 	// protected only through what the code offers: none. The scripted card never makes it panic on purpose.
+	ls.RunDoneActivate() // the source counts as running (Start does this before StartRun): mix requests are refused otherwise
 	ls.launchLanceroReader()
 	go func() {
 		<-card.done
@@ -382,7 +385,7 @@ func (run *lnRun) execute() {
 	default:
 	}
 	mixMu.Lock()
-	mb := mixAtBlock
+	mb, md := mixAtBlock, mixDoneBlock
 	mixMu.Unlock()
 	card.mu.Lock()
 	left := len(card.data) - card.rel
@@ -391,7 +394,7 @@ func (run *lnRun) execute() {
 	if sc.Gap != nil && sc.Gap.Len > 0 {
 		gc = card.lnGapClass(sc.Gap.At, sc.Cols, sc.Rows)
 	}
-	run.emit(vmap{"ev": "End", "mixatblock": mb, "leftbytes": left, "ncalls": card.ncall, "gapclass": gc})
+	run.emit(vmap{"ev": "End", "mixatblock": mb, "mixdoneblock": md, "leftbytes": left, "ncalls": card.ncall, "gapclass": gc})
 }
 
 func lnRandom(rng *rand.Rand) lnScen {
